@@ -210,7 +210,7 @@ func ZZVerifC19TextLayers() {
 }
 
 // ZZVerifC19TextConcurrent: two goroutines issue their first requests at the same
-// time (any mix of View v / View w / Layout): no fatal error (overlapping map
+// time (any mix of View v / View w / Layout / Base): no fatal error (overlapping map
 // access is detected), both get the expected templates.
 func ZZVerifC19TextConcurrent() {
 	nd.Schedule(nd.Param("P", 2))
@@ -219,7 +219,7 @@ func ZZVerifC19TextConcurrent() {
 	zzFixed = true
 	w := zzBuildWorld()
 	p := NewProvider(w.fs, "helpers", "layouts/{name}", "views/{name}", ".tmpl", nil, true)
-	kinds := []int{nd.Choose("req1", 3), nd.Choose("req2", 3)}
+	kinds := []int{nd.Choose("req1", 4), nd.Choose("req2", 4)}
 	var got [2]zzLayer
 	var ok [2]bool
 	var wg sync.WaitGroup
@@ -234,6 +234,8 @@ func ZZVerifC19TextConcurrent() {
 				got[i], ok[i] = zzViewTable(p, "w")
 			case 2:
 				got[i], ok[i] = zzLayoutTable(p)
+			case 3:
+				got[i], ok[i] = zzBaseTable(p)
 			}
 		}(i)
 	}
@@ -245,6 +247,8 @@ func ZZVerifC19TextConcurrent() {
 			want = w.expectView("v")
 		} else if kinds[i] == 1 {
 			want = w.expectView("w")
+		} else if kinds[i] == 3 {
+			want = w.helper
 		}
 		if ok[i] {
 			nd.Assert(got[i] == want, "C19/text/concurrent-equivalent")
